@@ -282,6 +282,11 @@ BASE_SCRIPTS = [
     'printf "{} {hue} {:>5}" 1 2 println "x" print {1 + 2 * 3 ^ 2}',
     'repeat in "A" and group "G1" as l begin get l on l end repeat while {hue < 10} hue {hue + 1}',
     'define f with a begin if {a <= 0} return 0 return [f {a - 1}] end print [f 2]',
+    # calls with something pending on the evaluation stack: as the right operand, inside light loops, nested in arguments
+    'define g begin return 4 end assign y {10 - [g]} print {1 + [round 2.5]} print {[g] + 1} print {2 * [g] - [round {y / 3}]}',
+    'define g with a begin return a end repeat all as lt begin assign y [g 2] on lt end repeat in "A" and "B" as l begin print [round 1.5] set l end',
+    # compile-time definitions in the middle of open bodies
+    'define lim 5 if {lim > 3} begin define k 7 print k end repeat 2 begin define w "a" print w if {lim < 9} break end print lim',
 ]
 
 
